@@ -485,7 +485,9 @@ def run_region_cached(args):
     if dup:
         v["two different values carry the same generation (the staleness test compares generations only, so a stale copy can pass for the latest)"] = z3.Or(*dup)
     if own:
-        v["a pinned thread did not observe its own write although nobody else wrote"] = z3.Or(*own)
+        # F.recv_gone = "some thread installed a regional copy whose generation was no longer the latest" (history flag)
+        v["a pinned thread did not observe its own write although nobody else wrote"] = z3.And(z3.Or(*own), z3.Not(F.recv_gone))
+        v["a pinned thread did not observe its own write: another thread installed an outdated regional copy behind the writer's invalidation"] = z3.And(z3.Or(*own), F.recv_gone)
     if order:
         v["a reader observed the single writer's values out of order"] = z3.Or(*order)
     tq = time.time()
@@ -494,9 +496,20 @@ def run_region_cached(args):
     if r != z3.sat:
         out.update(verdict="vacuous" if r == z3.unsat else "timeout", detail="no complete run within k=%d" % k)
         return out
+    KNOWN_PATTERN = "behind the writer's invalidation"
+    outside = [e for lab, e in v.items() if KNOWN_PATTERN not in lab]
+    inside = [e for lab, e in v.items() if KNOWN_PATTERN in lab]
     tq = time.time()
-    r, m = enc.check(done, z3.Or(*v.values()), timeout_s=args.timeout)
-    out["queries"].append(dict(q="violation of %s at quiescence" % args.prop, result=str(r), s=round(time.time() - tq, 2)))
+    r, m = enc.check(done, z3.Or(*outside), timeout_s=args.timeout)
+    out["queries"].append(dict(q="violation of %s at quiescence (outside the known-finding history pattern)" % args.prop, result=str(r), s=round(time.time() - tq, 2)))
+    if r == z3.unsat and inside:
+        tq = time.time()
+        r2, m2 = enc.check(done, z3.Or(*inside), timeout_s=args.timeout)
+        out["queries"].append(dict(q="history of the known-finding pattern exists", result=str(r2), s=round(time.time() - tq, 2)))
+        if r2 == z3.sat:
+            r, m = r2, m2
+        elif r2 == z3.unknown:
+            r = r2
     if r == z3.unknown:
         out.update(verdict="timeout", detail="solver gave up (%ss)" % args.timeout)
     elif r == z3.unsat:
